@@ -1,5 +1,5 @@
 (** C12 — parse trees carry consistent positions and structure. Pinned statements only. *)
-From Sq Require Import Base.Bytes Apply.Model Apply.Interleave TreePos.Model TreePos.Proofs TreePos.ParsePos.
+From Sq Require Import Base.Bytes Apply.Model Apply.Interleave TreePos.Model TreePos.Proofs TreePos.ParsePos TreePos.TFile TreePos.TFileProofs.
 
 (** [infer_next_position] is the line/column walk over the bytes of the raw text ... *)
 Theorem C12_infer_next_spec : forall raw l c, infer_next raw l c = linecol_from (l, c) raw.
@@ -100,3 +100,25 @@ Theorem C12_position_segments_total : forall nls segs parent,
   forallb preb segs = true -> exists out, position_segments nls segs parent = Some out.
 Proof. exact position_segments_total. Qed.
 Print Assumptions C12_position_segments_total.
+
+(** A templated file ([TemplatedFileInner::new]) keeps one newline table per text;
+    [get_line_pos_of_char_pos(p, source)] is the line/column of offset [p] computed from the text
+    the flag selects - the *templated* text for [source = false], whatever the source text is. *)
+Theorem C12_templated_file_line_pos : forall source templated p (src : bool),
+  p <= N.of_nat (length (if src then source else templated)) ->
+  tf_line_pos (tf_new source templated) p src
+  = linecol_from (1, 1) (firstn (N.to_nat p) (if src then source else templated)).
+Proof. exact tf_line_pos_spec. Qed.
+Print Assumptions C12_templated_file_line_pos.
+
+(** [PositionMarker::new]: a fresh marker's working line/column (and [templated_position]) is the
+    line/column of its templated start in the templated text; [source_position] that of its source
+    start in the source text. *)
+Theorem C12_marker_new_positions : forall source templated ss se ts te,
+  ss <= N.of_nat (length source) -> ts <= N.of_nat (length templated) ->
+  let m := marker_new (tf_new source templated) ss se ts te in
+  (m_wl m, m_wp m) = linecol_from (1, 1) (firstn (N.to_nat ts) templated) /\
+  templated_position (tf_new source templated) m = linecol_from (1, 1) (firstn (N.to_nat ts) templated) /\
+  source_position (tf_new source templated) m = linecol_from (1, 1) (firstn (N.to_nat ss) source).
+Proof. exact marker_new_spec. Qed.
+Print Assumptions C12_marker_new_positions.
